@@ -2,24 +2,24 @@
 C10 — model of the push / audio / keyboard listener path of the facade.
 
 Transcribed source (pinned tree):
-  pyatv/core/__init__.py:172-195   AbstractPushUpdater.__init__ / post_update
+  pyatv/core/__init__.py:170-194   AbstractPushUpdater.__init__ / post_update
         if playing != self._previous_state:
             self.state_dispatcher.dispatch(UpdatedState.Playing, playing)
             self.loop.call_soon(self.listener.playstatus_update, self, playing)
         self._previous_state = playing
   pyatv/support/state_producer.py:11-75  `listener` proxy: a no-op when no listener is set
         (resolved when `self.listener.playstatus_update` is *evaluated*, i.e. at post time)
-  pyatv/core/facade.py:556-603     FacadePushUpdater.start / stop / playstatus_update
+  pyatv/core/facade.py:556-598     FacadePushUpdater.start / stop / playstatus_update
         start: for every instance: instance.listener = self
         stop : for every instance: instance.listener = None
         playstatus_update(updater, p): if updater == self.main_instance: user.playstatus_update
   pyatv/core/facade.py:418-455     FacadeAudio._volume_changed / _output_devices_changed
   pyatv/core/facade.py:505-528     FacadeKeyboard (message_filter: protocol == main_protocol,
         evaluated inside dispatch) / _focus_state_changed
-  pyatv/core/protocol.py:80-124    MessageDispatcher.listen_to / dispatch (loop.call_soon per
+  pyatv/core/protocol.py:79-125    MessageDispatcher.listen_to / dispatch (loop.call_soon per
         listener whose filter accepts the message)
-  pyatv/core/relayer.py:55-70,127-139  main_instance / main_protocol / takeover / release
-  pyatv/core/facade.py:763-790     FacadeAppleTV.takeover (all-or-nothing over the interfaces,
+  pyatv/core/relayer.py:57-71,117-127  main_instance / main_protocol / takeover / release
+  pyatv/core/facade.py:763-789     FacadeAppleTV.takeover (all-or-nothing over the interfaces,
         returns the release function)
 
 Granularity.  The event loop's ready queue is explicit (`queue`, FIFO — asyncio's
